@@ -210,20 +210,37 @@ def setup(sc):
     o = build(sc)
     t = Tolerancing(o, method=sc.get('method', 'generic'), tol=sc.get('tol', 1e-5))
     add_operands(t, sc, o)
-    for p in sc['perts']:
-        t.add_perturbation(p['type'], mk_sampler(p['sampler']), **p['kw'])
+    samplers = [mk_sampler(p['sampler']) for p in sc['perts']]
+    for (a, b) in sc.get('share', []):
+        samplers[b] = samplers[a]          # ONE sampler object used by two perturbations
+    for p, sm in zip(sc['perts'], samplers):
+        t.add_perturbation(p['type'], sm, **p['kw'])
     for c in sc['comps']:
         t.add_compensator(c['type'], **c['kw'], **c.get('bounds', {}))
     return o, t
 
 
+def history_of(sc):
+    """steps executed on ONE Tolerancing object: ['mc', n] | ['sens'] | ['advance', j, k] (sampler j sampled k times by hand)"""
+    return sc.get('history') or [[sc['analysis'], sc['trials']] if sc['analysis'] == 'mc' else ['sens']]
+
+
+def step_which(sc, step):
+    if step[0] == 'mc':
+        return [list(range(len(sc['perts']))) for _ in range(step[1])]
+    if step[0] == 'sens':
+        out = []
+        for j, p in enumerate(sc['perts']):
+            n = p['sampler'][3] if p['sampler'][0] == 'range' else 1
+            out += [[j]] * n
+        return out
+    return []
+
+
 def plan_which(sc):
-    if sc['analysis'] == 'mc':
-        return [list(range(len(sc['perts']))) for _ in range(sc['trials'])]
     out = []
-    for j, p in enumerate(sc['perts']):
-        n = p['sampler'][3] if p['sampler'][0] == 'range' else 1
-        out += [[j]] * n
+    for st in history_of(sc):
+        out += step_which(sc, st)
     return out
 
 
@@ -269,43 +286,70 @@ def run_analysis(sc, observe=True):
     if orig_apply is not None:
         optmod.OptimizerGeneric._apply_solution = logged_apply
     t.evaluate = logged_eval
+    steps = []
+    table = []
+    nrows = 0
     try:
-        with quiet():
-            if sc['analysis'] == 'mc':
-                an = MonteCarlo(t)
-                an.run(sc['trials'])
-            else:
-                an = SensitivityAnalysis(t)
-                an.run()
+        for st in history_of(sc):
+            if st[0] == 'advance':
+                for _ in range(st[2]):
+                    t.perturbations[st[1]].sampler.sample()
+                steps.append({'kind': 'advance', 'n': 0})
+                continue
+            first = len(trials)
+            with quiet():
+                if st[0] == 'mc':
+                    an = MonteCarlo(t)
+                    an.run(st[1])
+                else:
+                    an = SensitivityAnalysis(t)
+                    an.run()
+            after = snapshot(o, WS, gl)
+            df = an.get_results()
+            which = step_which(sc, st)
+            names = an.operand_names
+            for i, tr in enumerate(trials[first:]):
+                if i >= len(df):
+                    break
+                row = df.iloc[i]
+                tr['step'] = len(steps)
+                tr['which'] = which[i] if i < len(which) else []
+                if st[0] == 'mc':
+                    tr['values'] = [f(row[res['pert_names'][j]]) for j in tr['which']]
+                else:
+                    tr['values'] = [f(row['perturbation_value'])]
+                    tr['type_ok'] = (row['perturbation_type'] == res['pert_names'][tr['which'][0]]) if tr['which'] else False
+                tr['row_ops'] = [f(row[n]) for n in names]
+                tr['comp'] = [f(row[c]) for c in df.columns if str(c).startswith('C') and ': ' in str(c)
+                              and str(c).split(':')[0][1:].isdigit()]
+            nrows += int(len(df))
+            table += [[None if (isinstance(v, float) and v != v) else (v if isinstance(v, str) else f(v))
+                       for v in df.iloc[i].tolist()] for i in range(len(df))]
+            steps.append({'kind': st[0], 'n': len(trials) - first, 'after_run': after,
+                          'diff_run': snap_diff(res['nominal'], after),
+                          'dict_diff_run': dict_diff(d_nom, dict_of(o))})
     finally:
         optmod.OptimizerGeneric._fun = orig_fun
         if orig_apply is not None:
             optmod.OptimizerGeneric._apply_solution = orig_apply
+    res['steps'] = steps
     res['after_run'] = snapshot(o, WS, gl)
-    res['dict_diff_run'] = dict_diff(d_nom, dict_of(o))
+    res['dict_diff_run'] = [x for stp in steps for x in stp.get('dict_diff_run', [])]
+    res['diff_run_steps'] = [x for stp in steps for x in stp.get('diff_run', [])]
     with quiet():
         t.reset()
     res['after_reset'] = snapshot(o, WS, gl)
     res['dict_diff_reset'] = dict_diff(d_nom, dict_of(o))
     res['to_dict_ok'] = '__to_dict_error__' not in d_nom
-    df = an.get_results()
-    which = plan_which(sc)
-    names = an.operand_names
-    for i, tr in enumerate(trials):
-        row = df.iloc[i]
-        tr['which'] = which[i] if i < len(which) else []
-        if sc['analysis'] == 'mc':
-            tr['values'] = [f(row[res['pert_names'][j]]) for j in tr['which']]
-        else:
-            tr['values'] = [f(row['perturbation_value'])]
-            tr['type_ok'] = (row['perturbation_type'] == res['pert_names'][tr['which'][0]]) if tr['which'] else False
-        tr['row_ops'] = [f(row[n]) for n in names]
-        tr['comp'] = [f(row[c]) for c in df.columns if str(c).startswith('C') and ': ' in str(c)
-                      and str(c).split(':')[0][1:].isdigit()]
+    for tr in trials:
+        tr.setdefault('which', [])
+        tr.setdefault('values', [])
+        tr.setdefault('row_ops', [])
+        tr.setdefault('comp', [])
+        tr.setdefault('step', -1)
     res['trials'] = trials
-    res['nrows'] = int(len(df))
-    res['table'] = [[None if (isinstance(v, float) and v != v) else (v if isinstance(v, str) else f(v))
-                     for v in df.iloc[i].tolist()] for i in range(len(df))]
+    res['nrows'] = nrows
+    res['table'] = table
     res['glass'] = {str(gid): [f(m.n(w)) for w in WS] for (gid, m) in gl.values()}
     res['nglass'] = len(gl)
     return res
@@ -390,8 +434,20 @@ for sc in job['scenarios']:
                 break
             fr, fsnap = fresh_eval(sc, tr['which'], tr['values'], res['targets'])
             ok = all(close(a, b, tol) for a, b in zip(fr, tr['row_ops'])) and len(fr) == len(tr['row_ops'])
+            resolved = False
+            if ok and not sc['comps']:
+                # tiny perturbations: the recorded value must follow the replayed one to within 2% of the EFFECT of the
+                # perturbation on that operand, whenever that effect is far above rounding (1e4 ulp)
+                for a, b, n0 in zip(fr, tr['row_ops'], res['ops_nominal']):
+                    if a != a or b != b or n0 != n0 or math.isinf(a) or math.isinf(n0):
+                        continue
+                    eff = abs(a - n0)
+                    if eff > 2.2e-12 * (1e-3 + abs(a)):
+                        resolved = True
+                        if abs(a - b) > 0.02 * eff:
+                            ok = False
             # where the lens at evaluation differs from the freshly built one (attribution of state-level mismatches)
-            e = {'fresh': fr, 'ok': ok, 'state_diff': snap_diff(fsnap, tr['snap'], 1e-6 if sc['comps'] else 1e-9),
+            e = {'fresh': fr, 'ok': ok, 'resolved': resolved, 'state_diff': snap_diff(fsnap, tr['snap'], 1e-6 if sc['comps'] else 1e-9),
                  'nominal_diff': snap_diff(res['nominal'], tr['snap'])}
             if not ok:
                 e['explained'] = None
@@ -408,6 +464,9 @@ for sc in job['scenarios']:
         if sc.get('bounded_ref'):
             r['bref'] = [bounded_reference(sc, tr['which'], tr['values'], res['targets']) for tr in res['trials']]
         r['diff_run'] = snap_diff(res['nominal'], res['after_run'])
+        for x in res.get('diff_run_steps', []):
+            if x not in r['diff_run']:
+                r['diff_run'].append(x)
         r['diff_reset'] = snap_diff(res['nominal'], res['after_reset'])
         r['stream'] = independent_stream(sc)
         if sc.get('check_repro'):
